@@ -34,12 +34,19 @@ type HarnessSpec struct {
 	Timeout  int // per query ms
 	MaxPaths int
 	Samples  int
-	Deadline time.Time
+	// NativeVectors: number of completed paths for which a concrete input
+	// vector (a model of the path condition) is kept, to be run through the
+	// natively compiled harness (translator validation).
+	NativeVectors int
+	Seed          int64
+	Deadline      time.Time
 	// AllowBlocked: a path that blocks forever is not a violation.
 	AllowBlocked bool
 	// AllowPanic: an uncaught target panic is not a violation.
 	AllowPanic bool
 	StopAtFirst bool
+	// ReinitGlobals: see Exec.trackGlobals.
+	ReinitGlobals bool
 }
 
 // HarnessResult aggregates a run.
@@ -63,6 +70,8 @@ type HarnessResult struct {
 	EngineErrors []string
 	Notes        []string
 	Samples      []map[string]interface{}
+	NativeVecs   []*Violation
+	nativeSeen   int
 	Functions    []string
 	StubsUsed    []string
 	Terms        int
@@ -161,6 +170,7 @@ func NewExec(prog *ssa.Program, spec *HarnessSpec, d *Driver) (*Exec, error) {
 		goMode:      spec.GoMode,
 		mapRev:      spec.MapRev,
 		params:      spec.Params,
+		trackGlobals: spec.ReinitGlobals,
 	}
 	if ex.lim.MaxSteps == 0 {
 		ex.lim.MaxSteps = 2000000
@@ -239,6 +249,11 @@ func (ex *Exec) runPath(entry *ssa.Function, w workItem, conc *Violation) (p *Pa
 		ex.sched = newScheduler(ex)
 		defer ex.sched.shutdown()
 	}
+	for pkg := range ex.touched {
+		ex.reinit = append(ex.reinit, pkg)
+	}
+	ex.touched = nil
+	defer func() { ex.reinit = nil }()
 	for _, pkg := range ex.reinit {
 		delete(ex.pkgInit, pkg)
 		for _, m := range pkg.Members {
@@ -406,9 +421,36 @@ func (d *Driver) finishPath(ex *Exec, p *Path, status PathStatus, msg string) {
 		}
 	}
 
+	// translator validation: reservoir-sample completed paths, keep a model each
+	var nvec *Violation
+	nslot := -1
+	if d.spec.NativeVectors > 0 && status == PathOK && !p.concrete {
+		d.mu.Lock()
+		d.res.nativeSeen++
+		seen := d.res.nativeSeen
+		if len(d.res.NativeVecs) < d.spec.NativeVectors {
+			nslot = len(d.res.NativeVecs)
+			d.res.NativeVecs = append(d.res.NativeVecs, nil)
+		} else if seen <= 40*d.spec.NativeVectors {
+			// deterministic pseudo-random replacement (seeded)
+			h := uint64(seen)*0x9E3779B97F4A7C15 + uint64(d.spec.Seed)*0xBF58476D1CE4E5B9
+			h ^= h >> 29
+			if int(h%uint64(seen)) < d.spec.NativeVectors {
+				nslot = int((h >> 7) % uint64(d.spec.NativeVectors))
+			}
+		}
+		d.mu.Unlock()
+		if nslot >= 0 && ex.solver.Check(p.pc) == Sat {
+			nvec = ex.withPath(p, func() *Violation { return ex.makeViolation("sample", "", "") })
+		}
+	}
+
 	d.mu.Lock()
 	defer d.mu.Unlock()
 	r := d.res
+	if nvec != nil {
+		r.NativeVecs[nslot] = nvec
+	}
 	r.Paths++
 	r.ByStatus[status.String()]++
 	r.Asserts += p.asserts
